@@ -1,7 +1,54 @@
-(* Props/C20.v — raw mantissa access, MantExp/SetMantExp (theorems to follow). *)
-From Coq Require Import ZArith.
-From Dec Require Import L3.Decimal L3.Arith L3.Convert.
+(* Props/C20.v — raw mantissa access and MantExp/SetMantExp are exact inverses.
+   Statements only (OpPost / result_spec as in Props/C01.v). *)
+From Coq Require Import ZArith QArith.
+From Dec Require Import Base.Words Base.QPow L3.Decimal L3.Round L3.Arith L3.Convert Spec.Rounding L3.ArithProofs L3.ConvertProofs.
 Open Scope Z_scope.
+
+(* SetBitsExp(mant, exp) for ANY little-endian slice of words below the base with a
+   non-zero value and EVERY integer exponent: the positive value 0.mant x 10^exp
+   (= val mant x 10^(exp - 19 len)), leading zero words and digits stripped, rounded to
+   the receiver's precision (the slice's digit capacity when that was 0), saturating
+   outside the exponent range *)
+Theorem C20_setbitsexp : forall z ws e,
+  words_ok ws = true -> 0 < val ws -> 19 * zlen ws + 19 < 4294967296 - 18 -> 0 <= prec z <= MaxPrec ->
+  OpPost (setbits_prec z ws) (dmode z) false (scaled (val ws) (e - 19 * zlen ws)) (SetBitsExp z ws e).
+Proof. exact SetBitsExp_correct. Qed.
+Print Assumptions C20_setbitsexp.
+
+Theorem C20_setbitsexp_zero : forall z ws, words_ok ws = true -> val ws = 0 -> 0 <= prec z <= MaxPrec ->
+  exists z', SetBitsExp z ws 0 = OkR z' /\ dform z' = Fzero /\ neg z' = false /\ acc z' = Exact /\ prec z' = prec z /\ dmode z' = dmode z.
+Proof. exact SetBitsExp_zero. Qed.
+Print Assumptions C20_setbitsexp_zero.
+
+(* BitsExp returns a pair denoting exactly the receiver's magnitude *)
+Theorem C20_bitsexp : forall x, dform x = Ffinite ->
+  (scaled (val (BitsExp_mant x)) (exp x - 19 * zlen (BitsExp_mant x)) == mag x)%Q.
+Proof. exact BitsExp_denotes. Qed.
+Print Assumptions C20_bitsexp.
+
+(* MantExp: x = mant x 10^exp with 0.1 <= |mant| < 1, attributes copied *)
+Theorem C20_mantexp : forall same m x, WF x -> dform x = Ffinite -> (same = true -> m = x) ->
+  exists m', MantExp_mant same m x = OkR m' /\ WF m' /\ dform m' = Ffinite /\ exp m' = 0 /\
+    neg m' = neg x /\ prec m' = prec x /\ dmode m' = dmode x /\
+    (scaled 1 (-1) <= mag m' < scaled 1 0)%Q /\
+    (mag m' * Qpow10 (MantExp_exp x) == mag x)%Q.
+Proof. exact MantExp_split. Qed.
+Print Assumptions C20_mantexp.
+
+(* SetMantExp(mant, e) for EVERY integer e: mant x 10^e with mant's precision and mode;
+   +-0 / +-Inf exactly when the resulting exponent leaves [MinExp, MaxExp] (result_spec) *)
+Theorem C20_setmantexp : forall same z m e,
+  WF m -> dform m = Ffinite -> mdigits (mant m) < 4294967296 - 18 -> (same = true -> z = m) ->
+  OpPost (prec m) (dmode m) (neg m) (mag m * Qpow10 e) (SetMantExp same z m e).
+Proof. exact SetMantExp_correct. Qed.
+Print Assumptions C20_setmantexp.
+
+(* the inverse law: SetMantExp(mant, MantExp(mant)) rebuilds exactly x *)
+Theorem C20_inverse : forall x z m0, WF x -> dform x = Ffinite -> mdigits (mant x) < 4294967296 - 18 ->
+  exists m', MantExp_mant false m0 x = OkR m' /\
+    OpPost (prec x) (dmode x) (neg x) (mag x) (SetMantExp false z m' (MantExp_exp x)).
+Proof. exact MantExp_inverse. Qed.
+Print Assumptions C20_inverse.
 
 Example C20_examples :
   let z := mkDec [] 0 0 ToNearestEven Exact Fzero false in
